@@ -4,6 +4,7 @@ import (
 	"context"
 	"errors"
 	"fmt"
+	"os"
 	"runtime"
 	"runtime/debug"
 	"strings"
@@ -134,6 +135,7 @@ func (r *Remote) NewInstantQuery(opts *promql.QueryOpts, qs string, ts time.Time
 		r.deliver(r.CreateErr)
 		return nil, r.CreateErr
 	}
+	sched.Note("remote instant %q at %d", qs, ts.UnixMilli())
 	q, err := r.inner.NewInstantQuery(opts, qs, ts)
 	if err != nil {
 		return nil, err
@@ -150,6 +152,7 @@ func (r *Remote) NewRangeQuery(opts *promql.QueryOpts, qs string, start, end tim
 		r.deliver(r.CreateErr)
 		return nil, r.CreateErr
 	}
+	sched.Note("remote range %q %d..%d/%d", qs, start.UnixMilli(), end.UnixMilli(), step.Milliseconds())
 	q, err := r.inner.NewRangeQuery(opts, qs, start, end, step)
 	if err != nil {
 		return nil, err
@@ -188,7 +191,11 @@ func (q *remoteQuery) Exec(ctx context.Context) *promql.Result {
 		q.r.deliver(q.r.ExecErr)
 		return &promql.Result{Err: q.r.ExecErr}
 	}
-	return q.Query.Exec(ctx)
+	res := q.Query.Exec(ctx)
+	if os.Getenv("VSIM_DEBUG_REMOTE") != "" {
+		sched.Note("REMOTE -> %v %v", res.Value, res.Err)
+	}
+	return res
 }
 
 // Outcome is everything observed about one query.
@@ -234,6 +241,9 @@ func (o *Outcome) Brief() string {
 		return "create error: " + o.CreateErr
 	case o.Err != "":
 		return "error: " + o.Err
+	}
+	if o.Fallback {
+		return "(fallback) " + o.Res.Brief()
 	}
 	return o.Res.Brief()
 }
